@@ -70,7 +70,6 @@ def alloc_now():
 # symbolic leaves
 
 class Sym:
-    __slots__ = ('t',)
 
     def __init__(self, t):
         self.t = t
@@ -110,11 +109,12 @@ class SAny(Sym):
 class VList:
     """Python list. Concrete mode: ``items`` (list of values); symbolic mode: ``seq`` (Seq PyVal)."""
 
-    def __init__(self, items=None, seq=None):
+    def __init__(self, items=None, seq=None, elem='any'):
         self.items = items if seq is None else None
         if self.items is None and seq is None:
             self.items = []
         self.seq = seq
+        self.elem = elem if seq is not None else 'any'     # 'any': Seq PyVal; 'str': Seq String
         self.frozen = False
         self.born = alloc()
 
@@ -123,13 +123,15 @@ class VList:
         return self.seq is not None
 
     def to_seq(self):
+        """Seq PyVal image"""
         if self.seq is not None:
-            return self.seq
+            return pv_seq(self.seq, self.elem)
         return seq_of([lift(x) for x in self.items])
 
     def make_symbolic(self):
         if self.seq is None:
             self.seq = self.to_seq()
+            self.elem = 'any'
             self.items = None
 
     def length(self):
@@ -227,11 +229,48 @@ class VKeys:
 
 
 class VSeqIter:
-    """Immutable iterable over a Seq PyVal term (generator expression / tuple of symbolic length)."""
+    """Immutable iterable over a Seq term (generator expression / tuple of symbolic length)."""
 
-    def __init__(self, seq, kind='tuple'):
+    def __init__(self, seq, kind='tuple', elem='any'):
         self.seq = seq
         self.kind = kind
+        self.elem = elem
+
+    def to_seq(self):
+        return pv_seq(self.seq, self.elem)
+
+
+_str_to_pv = None
+
+
+def pv_seq(seq, elem):
+    """typed sequence term -> Seq PyVal"""
+    if elem == 'any':
+        return seq
+    x = z3.String('x!m')
+    return z3.SeqMap(z3.Lambda([x], PV.PStr(x)), seq)
+
+
+def elem_value(owner, term):
+    """element term of a (possibly typed) sequence -> value"""
+    w = getattr(owner, 'wrap', None)
+    if w is not None:
+        return w(term)
+    if getattr(owner, 'elem', 'any') == 'str':
+        t = z3.simplify(term)
+        return t.as_string() if z3.is_string_value(t) else SStr(t)
+    return lower(term)
+
+
+def elem_term(owner, v):
+    """value -> element term for a (possibly typed) sequence; None if v cannot be an element"""
+    if getattr(owner, 'elem', 'any') == 'str':
+        if isinstance(v, str):
+            return z3.StringVal(v)
+        if isinstance(v, SStr):
+            return v.t
+        return None
+    return lift(v)
 
 
 class VFunc:
@@ -288,6 +327,7 @@ class VComp:
 # helpers
 
 _key_repr = z3.Function('key_repr', PV, z3.StringSort())
+NONSTR = '\x00'     # prefix of the index of a non-string key (never a prefix of a MIB / symbol name)
 
 
 def _itos(t):
@@ -295,32 +335,38 @@ def _itos(t):
 
 
 def kenc_t(t):
-    """Index of a dict / set key given as PyVal term.  Keys are assumed to be str or int
-    (assumption A-keys); other key types share the uninterpreted key_repr encoding."""
+    """Index of a dict / set key given as PyVal term.  A string key is its own index; int keys get a
+    NUL-prefixed numeral; other key types share the uninterpreted key_repr encoding (assumption A-keys:
+    keys of symbolically indexed dicts are str or int)."""
     t = z3.simplify(t)
     if z3.is_app(t) and t.sort() == PV:
         d = t.decl().name()
         if d == 'PStr':
-            return z3.Concat(z3.StringVal('s'), t.arg(0))
+            return t.arg(0)
         if d == 'PInt':
-            return z3.Concat(z3.StringVal('i'), _itos(t.arg(0)))
-    return z3.If(PV.is_PStr(t), z3.Concat(z3.StringVal('s'), PV.s(t)),
-                 z3.If(PV.is_PInt(t), z3.Concat(z3.StringVal('i'), _itos(PV.i(t))),
-                       z3.Concat(z3.StringVal('?'), _key_repr(t))))
+            return z3.Concat(z3.StringVal(NONSTR + '#'), _itos(t.arg(0)))
+    return z3.If(PV.is_PStr(t), PV.s(t),
+                 z3.If(PV.is_PInt(t), z3.Concat(z3.StringVal(NONSTR + '#'), _itos(PV.i(t))),
+                       z3.Concat(z3.StringVal(NONSTR + '?'), _key_repr(t))))
 
 
 def kenc(v):
     if isinstance(v, str):
-        return z3.StringVal('s' + v)
+        return z3.StringVal(v)
     if isinstance(v, bool):
-        return z3.StringVal('i' + str(int(v)))
+        return z3.StringVal(NONSTR + '#' + str(int(v)))
     if isinstance(v, int):
-        return z3.StringVal('i' + str(v))
+        return z3.StringVal(NONSTR + '#' + str(v))
     if isinstance(v, SStr):
-        return z3.Concat(z3.StringVal('s'), v.t)
+        return v.t
     if isinstance(v, SInt):
-        return z3.Concat(z3.StringVal('i'), _itos(v.t))
+        return z3.Concat(z3.StringVal(NONSTR + '#'), _itos(v.t))
     return kenc_t(lift(v))
+
+
+def kdec(ks):
+    """key value of an index string (inverse of kenc on string keys)"""
+    return PV.PStr(ks)
 
 
 def seq_of(terms):
@@ -369,7 +415,7 @@ def lift(v):
         v.frozen = True
         return PV.PList(v.to_seq())
     if isinstance(v, VSeqIter):
-        return PV.PTuple(v.seq) if v.kind == 'tuple' else PV.PList(v.seq)
+        return PV.PTuple(v.to_seq()) if v.kind == 'tuple' else PV.PList(v.to_seq())
     if isinstance(v, VDict):
         v.frozen = True
         if v.arr is None:
@@ -576,6 +622,8 @@ def fresh_like(v, fresh):
     if isinstance(v, (str, SStr)):
         return SStr(fresh(z3.StringSort(), 's'))
     if isinstance(v, VList):
+        if v.symbolic and v.elem == 'str':
+            return VList(seq=fresh(z3.SeqSort(z3.StringSort()), 'l'), elem='str')
         return VList(seq=fresh(PVSeq, 'l'))
     if isinstance(v, VDict):
         return VDict(arr=fresh(PVArr, 'd'))
@@ -593,7 +641,9 @@ def snapshot(v, memo=None):
     if isinstance(v, tuple):
         return tuple(snapshot(x, memo) for x in v)
     if isinstance(v, VList):
-        n = VList(seq=v.seq) if v.symbolic else VList([snapshot(x, memo) for x in v.items])
+        n = VList(seq=v.seq, elem=v.elem) if v.symbolic else VList([snapshot(x, memo) for x in v.items])
+        if hasattr(v, 'wrap'):
+            n.wrap = v.wrap
         memo[id(v)] = n
         return n
     if isinstance(v, VDict):
